@@ -17,6 +17,7 @@ fn tag_text(t: &str) -> &'static str {
         "i32max" => "tag(2147483647) ",
         "i32max1" => "tag(2147483648) ",
         "m1" => "tag(-1) ",
+        "huge" => "tag(340282366920938463463374607431768211456) ",
         _ => "",
     }
 }
@@ -79,6 +80,12 @@ fn render_enum(it: &Value) -> Vec<String> {
     let mut ens: Vec<String> = Vec::new();
     for (i, v) in strs(&it["vals"]).iter().enumerate() {
         let prev = values.last().copied();
+        if v == "huge" {
+            // a literal beyond 128 bits: it has no value; what follows implicitly is counted from the previous value
+            let fields = if i == 0 && it["fields"] == true { "(a: int32)" } else { "" };
+            ens.push(format!("N{}{} = 340282366920938463463374607431768211456", i + 1, fields));
+            continue;
+        }
         let (val, explicit) = match v.as_str() {
             "implicit" => (prev.map(|p| p + 1).unwrap_or(0), false),
             "min1" => (min - 1, true),
